@@ -29,6 +29,11 @@ CHECKS.update({
         text="Exploration. Pairs (G, H) where H is a relabelled/shuffled copy of G, optionally with one edge rewired, reversed, re-predicated, dropped or a ground triple changed; G from random bnode graphs and from symmetric families where colour refinement cannot split cells (cycles, K_mn, disjoint identical components, circulants, Petersen, hypercubes, C6 vs 2xC3). isomorphic(), to_isomorphic equality, equality of canonical graphs, the three graph_diff parts and the skolemise/de-skolemise round trip are compared with the oracle's answer. rdflib's search runs under a per-case wall watchdog; timeouts are counted as skipped.",
         note="rv.iso is self-tested against brute force at setup; cases exceeding its budget are skipped and counted.",
         ref="DESIGN.md §3 C14"),
+    "C06": dict(
+        technique="runtime monitoring: Dataset serialise->parse round trip judged by dataset isomorphism (one bnode bijection over nodes and graph names); RDF Patch diff applied and compared",
+        text="Exploration. Generated datasets (0-4 IRI- or bnode-named graphs, triples shared by several graphs, bnodes shared across graphs and used as graph names, empty/non-empty default graph, default_union on/off) are serialised as N-Quads, TriG, TriX, JSON-LD, HexTuples and RDF Patch(add) and parsed into an empty Dataset; the quad sets must be isomorphic with the default graph mapped to the default graph; serialising must not change the source. Patch lane: the diff between two related ground datasets (superset, subset, overlap, equal, disjoint, one quad moved) applied to the first must give the second. Listed findings (JSON-LD with bnode-named graphs / unrooted cycles / malformed lists, TriG+TriX bnode graph name used as node, Turtle numeric shorthand in TriG) are carved out by input predicates.",
+        note="TriX lane limited to XML 1.0 Char text; patch diffs use ground datasets.",
+        ref="DESIGN.md §3 C06"),
     "C07": dict(
         technique="runtime monitoring: algebraic laws (equivalence, hash coherence, kind order, string order, sort, pickle/copy, n3 read-back) evaluated over generated near-equal term pairs and collections",
         text="Exploration. Hundreds of thousands of generated pairs/triples of terms (60% near-equal: same string in another kind, language tags differing in case, other lexical form of one value, xsd:string vs plain) are checked against the laws themselves: == is reflexive/symmetric/transitive and agrees with the framework's own (kind, lexical, datatype, lower(lang)) key, equal terms hash alike and collapse in sets, dict keys and a Graph, cross-kind order is bnode<variable<IRI<literal, IRIs/bnodes order as strings, sorted() of mixed collections never raises and is reproducible over permutations; every term survives copy, deepcopy, pickle (all protocols) and NodePickler unchanged, and its n3() text is read back as the same term by from_n3, the Turtle parser and the SPARQL parser.",
